@@ -45,6 +45,16 @@ def _match(p, n, b):
     if isinstance(p, ast.Name):
         if p.id == "__V__":
             return isinstance(n, ast.AST)
+        if p.id.startswith("__A_"):
+            # automatic metavariable (a local of the anchored function): it stands for a local under another name - never for a builtin, a module-level name
+            # or a parameter (`epsilon_closure(x)` must not match `frozenset(x)`)
+            if not isinstance(n, ast.Name) or n.id in _CURRENT_FIXED[0]:
+                return False
+            k = p.id[4:]
+            if k in b:
+                return b[k] == n.id
+            b[k] = n.id
+            return True
         if p.id.startswith("__V_"):
             if not isinstance(n, ast.Name):
                 return False
@@ -217,7 +227,7 @@ class _Auto(ast.NodeTransformer):
     def visit_Name(self, node):
         if node.id in self.fixed or node.id.startswith("__V_") or node.id.startswith("__E_"):
             return node
-        return ast.copy_location(ast.Name(id="__V_" + node.id, ctx=node.ctx), node)
+        return ast.copy_location(ast.Name(id="__A_" + node.id, ctx=node.ctx), node)
 
 
 _auto_cache = {}
@@ -238,7 +248,11 @@ def ahas(model, fn, src, root=None):
     return bool(afind(model, fn, src, root))
 
 
+_CURRENT_FIXED = [frozenset()]
+
+
 def afind(model, fn, src, root=None):
+    _CURRENT_FIXED[0] = _fixed_names(model, fn)
     root = fn if root is None else root
     out = []
     try:
